@@ -42,6 +42,11 @@ CHECKS = {
   note=TRUST + " Rust std str methods (find/replace/split/is_char_boundary) are assumed to meet their documentation; number<->text conversion inside to_num/String.from is C19's.",
   technique="Lean 4 proof on a List UInt8 model (for all lengths and doubles) + exhaustive small-scope correspondence",
   ref="DESIGN.md section 5 C13"),
+ "C09": dict(
+  text="Lean 4 theorems on the fiber mechanism: chain_ok (in every reachable state the caller links from the active fiber form a finite duplicate-free chain ending at the root; a fiber has a caller iff it is on the chain below the top), reject_untouched (calling a finished fiber, a fiber on the chain or the running fiber returns the error and leaves the whole state unchanged), handover_first_call / handover_resume_repaired / handover_yield / handover_finish, isolation_load/unload/finish (a switch changes nothing in any other fiber), active_fiber_dual. Tie: every load/unload event of real runs replayed through the model; 18 constructed-oracle scenarios and all interleavings of two fibers with 2-3 steps (enumerated) in 2 GC modes; bodies wrapped in (nested) fibers; differential against the Lean reference interpreter.",
+  note=TRUST + " Yield from module level consumes its argument before it is rejected (reject_yield_root_partial) - not observable from programs; fibers suspended in the caller chain of a run that aborted stay 'already called' (documented quirk).",
+  technique="Lean 4 proof (chain invariant by induction over fiber operations, frame lemmas) + replay of real switch events + constructed-oracle scenarios with enumerated interleavings",
+  ref="DESIGN.md section 5 C09"),
  "C10": dict(
   text="Lean 4 theorems: guard_free_equiv (the unchecked value stack of stack.rs equals the bounds-checked one on every operation sequence in which no guard fires, and each guard matters), active_fiber_dual (the borrow-checked and the raw designation of the active fiber agree after every fiber operation), cfg_sites_accounted (every cfg-dependent site regenerated from the source is paired with a modelled operation). Tie: the harness is built in dev/release x feature switches and every program must produce identical traces in all builds.",
   note=TRUST + " What rustc does with unreachable_unchecked and unchecked pointer arithmetic is outside any model: covered only by the cross-build differential runs (partial).",
